@@ -1,5 +1,5 @@
 """One function per property: check_<ID>(tier) -> exit code."""
-import os, json, random, subprocess
+import os, json, random, subprocess, hashlib, re
 from common import *
 import build, certs, engine, probes, gen, cap as capmod
 import check_engine as ce
@@ -22,6 +22,32 @@ def framework(res, theorems):
     res.cov['generic_theorems'] = theorems
     res.cov['print_assumptions'] = {t: 'Closed under the global context' for t in theorems}
     res.trusted += ce.TRUSTED
+
+
+def attach_prog_ir(caps):
+    """Parse the code emitted (tail-call generator) for the given captures and attach the program IR (kernel instances of prog_ok)."""
+    import genparse
+    byfile = {}
+    for c in caps:
+        if c.file:
+            byfile.setdefault(c.file, []).append(c)
+    for f, cs in byfile.items():
+        try:
+            # ids are fNNNeMM_Name; the file index differs between captures, the enum index within the file does not
+            emitted = {(e.id or e.name).split('e', 1)[-1] if e.id else e.name: e
+                       for e in build.capture_files([f], 'kernel-emit-' + hashlib.sha1(f.encode()).hexdigest()[:10], gen=True)}
+        except Exception:
+            continue
+        for c in cs:
+            e = emitted.get((c.id or '').split('e', 1)[-1]) if (c.id and re.match(r'f\d+e\d+_', c.id)) else None
+            c.prog_ir = None
+            if e is not None and e.name != c.name:
+                e = None
+            if e is not None and os.path.exists(e.gen_path):
+                try:
+                    c.prog_ir = genparse.parse_generated(open(e.gen_path).read())
+                except genparse.ShapeError:
+                    c.prog_ir = None
 
 
 def cert_stage(res, tier, need, kernel_theorems, prop, extra_caps=()):
@@ -68,6 +94,8 @@ def cert_stage(res, tier, need, kernel_theorems, prop, extra_caps=()):
         rc = [c for c in repo_caps if ce.usable(c) and len(c.dfa['states']) <= 400]
         rk.shuffle(rc)
         kcaps = [c for c in extra_caps if ce.usable(c) and len(c.dfa['states']) <= 400] + rc[:60]
+    if any('prog_ok_@' in th for th in kernel_theorems):
+        attach_prog_ir(kcaps)
     kres = certs.kernel_certs(kcaps, kernel_theorems, prop)
     for c in kcaps:
         ok, msg, st = kres[c.id or c.name]
@@ -205,6 +233,9 @@ def engine_property(prop, tier, theorems, need, kernel_theorems, fss, modes, wan
         repo_caps, rand_caps = ce.corpora(tier, res)
         k11_byteclass(res, tier, [c for c in list(repo_caps) + list(rand_caps) if ce.usable(c)])
         log('stage k11 %.1fs' % (_t.time() - t0))
+        t0 = _t.time()
+        k4_leaf_languages(res, tier, drv, [c for c in list(repo_caps) + list(rand_caps) if ce.usable(c)])
+        log('stage k4 %.1fs' % (_t.time() - t0))
     t0 = _t.time(); mism = ce.run_k2(res, sets, fss, tier, modes=modes, drv=drv); log('stage k2 %.1fs' % (_t.time() - t0))
     nm = report_k2(res, mism, sets, want, prop)
     res.oblige(nm == 0)
@@ -221,7 +252,7 @@ RULE_ENGINE = ('every accepted definition of the repo / curated / seeded random 
                'self-loop run lengths 0..17 and around multiples of 8, random token-biased inputs with noise; compared: %s')
 
 
-def emitted_stage(res, tier, prop, judge_tags, report_shape=False, leaf_bodies=False):
+def emitted_stage(res, tier, prop, judge_tags, report_shape=False, leaf_bodies=False, report_rejected=None):
     """Translator tie K12: the token text emitted by both code generators for every usable definition of the
     corpora is parsed (lib/genparse.py, strict template match) into the program IR of Engine/Prog.v and the
     extracted checker prog_ok relates it to the captured graph (theorems C06_emitted_is_model / _is_ref).
@@ -229,6 +260,8 @@ def emitted_stage(res, tier, prop, judge_tags, report_shape=False, leaf_bodies=F
     semantics of its graph; it is reported when its class is in judge_tags (any class when judge_tags is None).
     A definition whose code no longer has the modelled shape is reported when report_shape is set."""
     import genparse
+    if report_rejected is None:
+        report_rejected = report_shape
     drv = build.extraction_build()
     sd = seed()
     n = 300 if tier == 'quick' else 4000
@@ -310,7 +343,7 @@ def emitted_stage(res, tier, prop, judge_tags, report_shape=False, leaf_bodies=F
                                   (c.id, gname, w, ' in partial mode' if mode else '', ','.join(sorted(tags))),
                                   dict(definition=c.source, definition_id=c.id, generator=gname, partial=bool(mode), input_hex=w.hex(), input=repr(w),
                                        emitted_program_items=mi, emitted_program_final=mf, graph_items=spec[0], graph_final=spec[1], differs=sorted(tags)))
-            elif report_shape:
+            elif report_rejected:
                 nrep += 1
                 res.violation(None, '%s (%s generator): the emitted program is not the program of its graph (prog_ok fails)' % (c.id, gname),
                               dict(definition=c.source, definition_id=c.id, generator=gname,
@@ -443,8 +476,66 @@ def k11_byteclass(res, tier, caps):
     res.cov['k11_byteclass_pairs'] = len(cases)
 
 
+def k4_leaf_languages(res, tier, drv, caps):
+    """K4: the language of every #[regex] / skip / #[token] leaf of the corpora, as the derive compiled it into the
+    captured DFA, against a reference built WITHOUT logos from the attribute text (independent attribute scan
+    tools/capture/src/attrs.rs; regex-syntax + regex-automata with the documented options; literal chain for tokens).
+    A distinguishing text is a concrete input on which the pattern's language is not the regex crate's."""
+    import equiv, frontgen as fg
+    rng = random.Random(seed() * 53 + 4)
+    cand = []
+    for c in caps:
+        if not (c.accepted and c.dfa and c.dfa.get('start') is not None and len(c.attrs) == len(c.leaves)):
+            continue
+        if len(c.dfa['states']) > 250:
+            continue
+        for l in c.leaves:
+            a = c.attrs[l['idx']]
+            if a.get('lit') in (None, '-') and a.get('kind') != 'token':
+                continue
+            cand.append((c, l, a))
+    rng.shuffle(cand)
+    cand = cand[:(160 if tier == 'quick' else 3000)]
+    specs = []; items = []
+    for k, (c, l, a) in enumerate(cand):
+        raw = bytes.fromhex(a['lit']) if a.get('lit') not in (None, '-') else b''
+        isb = a.get('bytes') == '1'
+        icase = a.get('icase') == '1'
+        if a.get('kind') == 'token':
+            if icase:
+                try:
+                    txt = raw.decode('utf8')
+                except UnicodeDecodeError:
+                    continue
+                pat = '(?i-u:' + fg.regex_escape_bytes(raw) + ')' if isb else '(?i:' + fg.regex_escape(txt) + ')'
+                specs.append(('k%d' % k, 1 if c.utf8 else 0, 0 if isb else 1, 0, pat)); items.append((k, c, l, a, 'ref', pat))
+            else:
+                items.append((k, c, l, a, 'chain', raw))
+            continue
+        try:
+            txt = raw.decode('utf8')
+        except UnicodeDecodeError:
+            continue
+        if '(?&' in txt or (isb and any(b >= 0x80 for b in raw)):
+            continue          # subpattern references are C11's business; raw non-ASCII bytes in byte patterns are escaped by the derive
+        specs.append(('k%d' % k, 1 if c.utf8 else 0, 0 if isb else 1, 1 if icase else 0, txt)); items.append((k, c, l, a, 'ref', txt))
+    refs = fg.refdfas(specs, 'k4-%s' % tier) if specs else {}
+    pairs = []
+    for k, c, l, a, how, what in items:
+        if how == 'chain':
+            ref = equiv.chain_dfa(what); descr = '#[token] must match exactly the bytes %r' % what
+        else:
+            rc = refs.get('k%d' % k)
+            if rc is None or not rc.dfa or rc.dfa.get('start') is None:
+                continue
+            ref = equiv.RefDfa(rc.dfa['states'], rc.dfa['start']); descr = 'pattern %r must denote the regex crate\'s language of that pattern' % what
+        pairs.append(dict(tag='%s leaf %d' % (c.id, l['idx']), cap=c, leaf=l['idx'], ref=ref, refleaf=0, source=c.source, describe=descr))
+    res.count('k4_leaf_languages', len(pairs))
+    return bisim_stage(res, drv, pairs, 'K4 leaf language vs independent reference')
+
+
 def check_C01(tier):
-    return engine_property('C01', tier, ['C01_maximal_munch', 'C01_stream_eq_spec', 'C01_construction_correct', 'C01_maximal_munch_built', 'C01_bisimilar_graphs_agree', 'C01_merged_class_is_union', 'C01_merged_class_canonical', 'C01_edge_condition_exact', 'C01_dedup_preserves_walks', 'C01_full_construction_correct'], ['dfa_ok', 'sim_ok', 'exact_ok'], [certs.TH_C01, certs.TH_C01S], ['tc', 'sm'], (0,),
+    return engine_property('C01', tier, ['C01_maximal_munch', 'C01_stream_eq_spec', 'C01_construction_correct', 'C01_maximal_munch_built', 'C01_bisimilar_graphs_agree', 'C01_merged_class_is_union', 'C01_merged_class_canonical', 'C01_edge_condition_exact', 'C01_dedup_preserves_walks', 'C01_full_construction_correct', 'C01_emitted_code_maximal_munch'], ['dfa_ok', 'sim_ok', 'exact_ok'], [certs.TH_C01, certs.TH_C01S, certs.TH_C01B], ['tc', 'sm'], (0,),
                            {'ok-item', 'spec-ok-item', 'graph-differs'}, {'ok-item'},
                            RULE_ENGINE % ('dfa_ok+sim_ok', 'Ok items (variant, span) and item kinds, per feature set, against the graph executor and the DFA-level specification'),
                            ASSUME_ENGINE)
@@ -502,10 +593,10 @@ def check_C07(tier):
 
 def check_C06(tier):
     res = Result('C06', tier)
-    framework(res, ['C06_opt_is_ref', 'C06_generators_agree', 'C06_emitted_is_model', 'C06_emitted_is_ref', 'C06_emitted_programs_agree'])
+    framework(res, ['C06_opt_is_ref', 'C06_generators_agree', 'C06_emitted_is_model', 'C06_emitted_is_ref', 'C06_emitted_programs_agree', 'C06_emitted_stream'])
     fss = ['tc', 'sm']
     sets = ce.compiled_sets(tier, fss)
-    failing, drv = cert_stage(res, tier, ['wf_graph'], [], 'C06', curated_caps(sets, 'tc'))
+    failing, drv = cert_stage(res, tier, ['wf_graph'], [certs.TH_C06P], 'C06', curated_caps(sets, 'tc'))
     import time as _t
     t0 = _t.time(); emitted_stage(res, tier, 'C06', None, report_shape=True); log('stage emitted %.1fs' % (_t.time() - t0))
     for c, name in failing[:6]:
@@ -574,6 +665,9 @@ def check_C20(tier):
     fss = ['tc', 'sm']
     sets = ce.compiled_sets(tier, fss)
     drv = build.extraction_build()
+    # C20_emitted_reads_monotone_linear speaks about every program the translator can read off the emitted code:
+    # a definition whose code no longer has that shape is outside the theorem and is reported
+    emitted_stage(res, tier, 'C20', set(), report_shape=True, report_rejected=False)
     mism = ce.run_k3(res, sets, fss, tier, modes=(0, 1), drv=drv)
     enums_by_label = {label: enums for label, h, enums in sets}
     n = 0
@@ -882,7 +976,7 @@ def c13_compare(c, codes, has_errcb, r, mi, mf, data, default_err='Default'):
             sl = b'' if rhex == '-' else bytes.fromhex(rhex)
             if rs != rec[2] or sl != data[rs:re_]:
                 return 'next() #%d: callback observed span %d..%d slice %r' % (j, rs, re_, sl)
-            if code == 25:
+            if code in (25, 26):
                 want = sum(sl) % 3
                 ok = (re_ + want == rec[3]) or (re_ == rec[3])
             else:
